@@ -150,8 +150,10 @@ class Ctx:
     # ---------------------------------------------------------------- TLC
     def tlc(self, module, cfg, workers=None, timeout=600, simulate=None, depth=None,
             coverage=False, deque=False, xss="64m", heap=None, label=None, collect=True,
-            extra_files=None, count=True):
-        """Run TLC on specs/<module>.tla with the given cfg text."""
+            extra_files=None, count=True, defs=None):
+        """Run TLC on specs/<module>.tla with the given cfg text.
+        defs: {constant: TLA+ expression} for constants a cfg file cannot express (tuples, functions);
+        a module <module>_MC extending <module> is generated and the constants are substituted."""
         self.nrun += 1
         d = os.path.join(self.scratch, "tlc%d" % self.nrun)
         os.makedirs(d)
@@ -161,6 +163,13 @@ class Ctx:
         for name, content in (extra_files or {}).items():
             with open(os.path.join(d, name), "w") as fh:
                 fh.write(content)
+        if defs:
+            body = "\n".join("MC_%s == %s" % (k, v) for k, v in defs.items())
+            with open(os.path.join(d, module + "_MC.tla"), "w") as fh:
+                fh.write("---- MODULE %s_MC ----\nEXTENDS %s\n%s\n====\n" % (module, module, body))
+            sub = "CONSTANTS\n" + "".join("  %s <- MC_%s\n" % (k, k) for k in defs)
+            cfg = cfg + sub
+            module = module + "_MC"
         with open(os.path.join(d, "run.cfg"), "w") as fh:
             fh.write(cfg)
         if workers is None:
@@ -236,9 +245,10 @@ class Ctx:
             % (module, label or "", r.generated, r.distinct, r.depth, len(behs), r.wall))
         return r
 
-    def simulate(self, module, cfg, num, depth, label="sim", timeout=600):
+    def simulate(self, module, cfg, num, depth, label="sim", timeout=600, defs=None):
         """Random behaviours (spec's NextSim prints each complete behaviour once)."""
-        return self.tlc(module, cfg, workers=1, simulate="num=%d" % num, depth=depth + 1, label=label, timeout=timeout)
+        return self.tlc(module, cfg, workers=1, simulate="num=%d" % num, depth=depth + 1, label=label, timeout=timeout,
+                        defs=defs)
 
     def design(self, module, cfg, **kw):
         """Design check: a violation here is a defect of the spec (exit 2)."""
